@@ -30,17 +30,52 @@ class MetadataToTyping:
         return {"pair": seq_len(result) == 2 and ty_is(at(result, 0), list) and ty_is(at(result, 1), str)}
 
 
-@contract(GEN + ".convert_field_name", props=["C11"], verify=False)
+@spec
+def key_ok(self, name):
+    """the documented key domain (C11): something is left of the key once non-word characters are removed"""
+    return len(ext("re.sub", "\\W", "", ext("unidecode", name) if self.convert_unicode else name)) > 0
+
+
+@spec
+def blacklist_ok():
+    """a property of the module constant blacklist_words: appending '_' to a blacklisted word escapes the blacklist"""
+    return forall(blacklist_words, lambda w: not (box_str(sval(w) + "_") in blacklist_words))
+
+
+@contract(GEN + ".convert_field_name", props=["C11", "C04"])
 class ConvertFieldName:
-    sorts = {"name": "str", "result": "str"}
+    """the field name of a key is prepare_label(key) in snake case, with this generator's unicode option (C04 'the Python name is the
+    sanitised key').  The @cached_method wrapper is read as transparent (DESIGN 2.2); the bounded C04/C11 stand-ins cover the cache."""
+    sorts = {"name": "str", "result": "str", "convert_unicode": "bool", "blacklist_words": "set"}
 
-
-@contract(SQL + ".convert_field_name", props=["C11"], verify=False)
-class SqlConvertFieldName:
-    sorts = {"name": "str", "result": "str"}
+    def requires(self, name):
+        return {"key_has_a_word_character": key_ok(self, name), "suffix_escapes_blacklist": blacklist_ok()}
 
     def ensures(self, name, result):
-        return {"id_pk_kept": implies(name == "id" or name == "pk", result == name)}
+        return {"is_snake_case_label": result == prepare_label(name, self.convert_unicode, True)}
+
+
+@contract(GEN + ".convert_class_name", props=["C11", "C03"])
+class ConvertClassName:
+    sorts = {"name": "str", "result": "str", "convert_unicode": "bool", "blacklist_words": "set"}
+
+    def requires(self, name):
+        return {"key_has_a_word_character": key_ok(self, name), "suffix_escapes_blacklist": blacklist_ok()}
+
+    def ensures(self, name, result):
+        return {"is_label": result == prepare_label(name, self.convert_unicode, False)}
+
+
+@contract(SQL + ".convert_field_name", props=["C11", "C04"])
+class SqlConvertFieldName:
+    sorts = {"name": "str", "result": "str", "convert_unicode": "bool", "blacklist_words": "set"}
+
+    def requires(self, name):
+        return {"key_has_a_word_character": key_ok(self, name), "suffix_escapes_blacklist": blacklist_ok()}
+
+    def ensures(self, name, result):
+        return {"id_pk_kept": implies(name == "id" or name == "pk", result == name),
+                "otherwise_the_label": implies(not (name == "id" or name == "pk"), result == prepare_label(name, self.convert_unicode, True))}
 
 
 @contract("json_to_models/models/base.py::sort_kwargs", props=["C04"], verify=False)
@@ -56,7 +91,10 @@ class SortKwargs:
 @contract(GEN + ".field_data", props=["C04", "C11"])
 class GenericFieldData:
     """name = sanitised key, type = rendering of the inferred type; nothing else (the base generator emits no default)."""
-    sorts = {"name": "str", "optional": "bool", "result": "tuple", "data": "dict"}
+    sorts = {"name": "str", "optional": "bool", "result": "tuple", "data": "dict", "convert_unicode": "bool", "blacklist_words": "set"}
+
+    def requires(self, name, meta, optional):
+        return {"key_has_a_word_character": key_ok(self, name), "suffix_escapes_blacklist": blacklist_ok()}
 
     def ensures(self, name, meta, optional, result):
         data = at(result, 1)
@@ -108,7 +146,8 @@ class PydanticFieldData:
     sorts = {"name": "str", "optional": "bool", "result": "tuple", "data": "dict", "body_kwargs": "dict", "imports": "any"}
 
     def requires(self, name, meta, optional):
-        return {"optional_is_DOptional": implies(optional, ty_is(meta, DOptional))}
+        return {"optional_is_DOptional": implies(optional, ty_is(meta, DOptional)),
+                "key_has_a_word_character": key_ok(self, name), "suffix_escapes_blacklist": blacklist_ok()}
 
     def ensures(self, name, meta, optional, result):
         data = as_dict(at(result, 1))
@@ -154,7 +193,8 @@ class AttrsFieldData:
     sorts = {"name": "str", "optional": "bool", "result": "tuple", "data": "dict", "body_kwargs": "dict", "imports": "list"}
 
     def requires(self, name, meta, optional):
-        return {"optional_is_DOptional": implies(optional, ty_is(meta, DOptional))}
+        return {"optional_is_DOptional": implies(optional, ty_is(meta, DOptional)),
+                "key_has_a_word_character": key_ok(self, name), "suffix_escapes_blacklist": blacklist_ok()}
 
     def ensures(self, name, meta, optional, result):
         data = as_dict(at(result, 1))
@@ -186,7 +226,8 @@ class DataclassFieldData:
     sorts = {"name": "str", "optional": "bool", "result": "tuple", "data": "dict", "body_kwargs": "dict", "imports": "list"}
 
     def requires(self, name, meta, optional):
-        return {"optional_is_DOptional": implies(optional, ty_is(meta, DOptional))}
+        return {"optional_is_DOptional": implies(optional, ty_is(meta, DOptional)),
+                "key_has_a_word_character": key_ok(self, name), "suffix_escapes_blacklist": blacklist_ok()}
 
     def ensures(self, name, meta, optional, result):
         data = as_dict(at(result, 1))
